@@ -3579,11 +3579,29 @@ static int output_formatted (
 	hawk_ooch_t* ptr;
 	hawk_oow_t len;
 	int n;
+	hawk_ooecs_t out, fbu;
 
-	ptr = hawk_rtx_format(rtx, HAWK_NULL, HAWK_NULL, fmt, fmt_len, 0, args, &len);
-	if (!ptr) return -1;
+	/* the arguments are evaluated while the format string is being processed.
+	 * an argument expression can execute another printf statement. the buffers
+	 * shared in the runtime context can't hold the text produced so far */
+	if (hawk_ooecs_init(&out, hawk_rtx_getgem(rtx), 256) <= -1) return -1;
+	if (hawk_ooecs_init(&fbu, hawk_rtx_getgem(rtx), 256) <= -1)
+	{
+		hawk_ooecs_fini (&out);
+		return -1;
+	}
+
+	ptr = hawk_rtx_format(rtx, &out, &fbu, fmt, fmt_len, 0, args, &len);
+	if (!ptr)
+	{
+		hawk_ooecs_fini (&fbu);
+		hawk_ooecs_fini (&out);
+		return -1;
+	}
 
 	n = hawk_rtx_writeiostr(rtx, out_type, dst, ptr, len);
+	hawk_ooecs_fini (&fbu);
+	hawk_ooecs_fini (&out);
 	if (n <= -1 /*&& rtx->errinf.num != HAWK_EIOIMPL*/)
 	{
 		return (rtx->hawk->opt.trait & HAWK_TOLERANT)? PRINT_IOERR: -1;
@@ -3599,11 +3617,27 @@ static int output_formatted_bytes (
 	hawk_bch_t* ptr;
 	hawk_oow_t len;
 	int n;
+	hawk_becs_t out, fbu;
 
-	ptr = hawk_rtx_formatmbs(rtx, HAWK_NULL, HAWK_NULL, fmt, fmt_len, 0, args, &len);
-	if (!ptr) return -1;
+	/* see output_formatted() for the private buffers */
+	if (hawk_becs_init(&out, hawk_rtx_getgem(rtx), 256) <= -1) return -1;
+	if (hawk_becs_init(&fbu, hawk_rtx_getgem(rtx), 256) <= -1)
+	{
+		hawk_becs_fini (&out);
+		return -1;
+	}
+
+	ptr = hawk_rtx_formatmbs(rtx, &out, &fbu, fmt, fmt_len, 0, args, &len);
+	if (!ptr)
+	{
+		hawk_becs_fini (&fbu);
+		hawk_becs_fini (&out);
+		return -1;
+	}
 
 	n = hawk_rtx_writeiobytes(rtx, out_type, dst, ptr, len);
+	hawk_becs_fini (&fbu);
+	hawk_becs_fini (&out);
 	if (n <= -1 /*&& rtx->errinf.num != HAWK_EIOIMPL*/)
 	{
 		return (rtx->hawk->opt.trait & HAWK_TOLERANT)? PRINT_IOERR: -1;
